@@ -167,7 +167,15 @@ func mathMod(L *LState) int {
 }
 
 func mathModf(L *LState) int {
-	v1, v2 := math.Modf(float64(L.CheckNumber(1)))
+	x := float64(L.CheckNumber(1))
+	if math.IsInf(x, 0) {
+		// C's modf: the fractional part of an infinity is a zero of the same sign
+		// (math.Modf returns NaN)
+		L.Push(LNumber(x))
+		L.Push(LNumber(math.Copysign(0, x)))
+		return 2
+	}
+	v1, v2 := math.Modf(x)
 	L.Push(LNumber(v1))
 	L.Push(LNumber(v2))
 	return 2
